@@ -98,7 +98,7 @@ func VerifC18_size_flexible_writeLimit() {
 // The sink does not know the produce version yet (-1: first request on this broker): batching
 // uses the pessimistic maximum, the request is then written with whatever version is negotiated.
 func VerifC18_size_unknownVersion() {
-	v := verifC18Pick([]int16{0, 2, 8, 9, 13}, []int16{0, 1, 2, 3, 4, 5, 6, 7, 8, 9, 10, 11, 12, 13})
+	v := verifC18Pick([]int16{0, 2, 8, 9, 13}, []int16{0, 1, 2, 3, 8, 9, 12, 13})
 	ck := verifC18CkRest
 	if v < 9 {
 		ck |= verifC18CkWriteLimit
@@ -110,7 +110,7 @@ func VerifC18_size_unknownVersion() {
 }
 
 func VerifC18_size_unknownVersion_writeLimit() {
-	v := verifC18Pick([]int16{9, 13}, []int16{9, 10, 11, 12, 13})
+	v := verifC18Pick([]int16{9, 13}, []int16{9, 12, 13})
 	verifC18SizeRun(-1, v, verifC18CkWriteLimit)
 }
 
@@ -130,7 +130,7 @@ func verifC18SizeRun(pv int32, ev int16, ck int) {
 	nRecs := 1 + verifChoose(maxRecs)
 	nVariants, nIDs := 2, 2
 	if verifThorough() {
-		nVariants, nIDs = len(verifC18Variants), 3
+		nVariants = len(verifC18Variants)
 	}
 	variant := verifC18Variants[verifChoose(nVariants)]
 	filler := 1000 // pushes the accounted request size above the smallest legal limit (1024)
